@@ -265,7 +265,7 @@ fn do_replay(prop: &str, path: &str) -> i32 {
     let sig = doc["signature"].as_str().unwrap_or("");
     let harness = doc["harness"].as_str().unwrap_or("");
     if doc["regime"].as_str() == Some("trace-subscriber") {
-        driver::install_trace_subscriber();
+        driver::install_trace_subscriber(prop);
     }
     if harness.starts_with("chain") {
         let hp = match prop {
